@@ -507,13 +507,9 @@ theorem expand_half_shape (res : List ER) (nums : List Num) (half : List Bool) :
   simp only []
   split <;> simp
 
-/- Natural statement "after `expand_half_suffix` every result's text is still source[start:start+length]" is FALSE of
-   the code: the numbers it compares with have had their `start` overwritten by the loop (relative start inside the
-   result that consumed them). -/
-
-/-- … it holds when every number that can be appended still has its absolute position (`NumOK`: inside the string, text =
-slice) — true of the numbers the loop did not consume, and of all numbers in the variant
-findings/nwu/half-stale-start.diff (`Inputs.pristineHalf`) — … -/
+/-- Half expansion keeps "text = source[start:start+length]" whenever every number that can be appended has its absolute
+position (`NumOK`: inside the string, text = slice). Since fix "half-stale-start" (the relative number start is set on a
+copy) that is the case for all numbers `expand_half_suffix` sees: `nwu_extract_text_is_slice`. -/
 theorem expand_half_text_is_slice_partial (src : Str) (res : List ER) (nums : List Num) (half : List Bool)
     (hr : ∀ r ∈ res, r.start + r.len ≤ src.length ∧ r.text = slice src r.start (r.start + r.len))
     (hn : ∀ n ∈ nums, NumOK src n) :
@@ -528,10 +524,12 @@ theorem expand_half_text_is_slice_partial (src : Str) (res : List ER) (nums : Li
     simp only
     rw [hR.2, hN.2, hs, ← Nat.add_assoc, slice_append_slice] <;> omega
 
-/-- … and fails in general. Witness = the zh-cn currency input `5元,￥ 半` (prefix match `￥`@3, suffix match `元`@1, numbers
+/-- **Regression theorem** for the code before fix "half-stale-start" (`Inputs.pristineHalf = false`: `expand_half_suffix`
+saw the numbers as the loop left them, start overwritten by the relative start inside the result that consumed them).
+Witness = the zh-cn currency input `5元,￥ 半` (prefix match `￥`@3, suffix match `元`@1, numbers
 `5`@0 and `半`@5 with the half flag): `半` is consumed by `￥ 半`, its start becomes the relative start 2 — where `5元`
-ends — and `5元` is turned into `5元半` although the source there reads `5元,` (observed: the recogniser answers 5.5 yuan
-for `5元,`). -/
+ends — and `5元` was turned into `5元半` although the source there reads `5元,` (observed then: the recogniser answered
+5.5 yuan for `5元,`); with the absolute positions (last conjunct) nothing is appended. -/
 theorem nwu_expand_half_stale_witness :
     let c : Cfg := ⟨fun ch => ch == 32, [], 10, true, false⟩
     let src : Str := [53, 20803, 44, 65509, 32, 21322]
@@ -542,6 +540,24 @@ theorem nwu_expand_half_stale_witness :
     slice src 0 3 = [53, 20803, 44] ∧
     expandHalf st.result [⟨0, 1, [53]⟩, ⟨5, 1, [21322]⟩] [false, true] = st.result := by
   decide
+
+/-- C05(m) / C01 **the whole `extract`, half expansion included** (current code: `pristineHalf`): for well-formed inputs
+every returned result lies inside the string the loop worked on and its text is the slice it claims — for every
+configuration, the Chinese one with its half-unit flags included, whatever the regexes answer. -/
+theorem nwu_extract_text_is_slice (c : Cfg) (i : Inputs) (h : WF c i) (hp : i.pristineHalf = true)
+    (rs : List ER) (he : extract c i = some rs) :
+    ∀ r ∈ rs, r.start + r.len ≤ (fixedSource c i).length ∧
+      r.text = slice (fixedSource c i) r.start (r.start + r.len) := by
+  unfold extract at he
+  split at he
+  · simp only [Option.some.injEq] at he; subst he; intro r hr; simp at hr
+  · cases hpre : extractPre c i with
+    | none => simp [hpre] at he
+    | some pre =>
+      simp only [hpre, Option.map_some, Option.some.injEq, hp] at he
+      subst he
+      exact expand_half_text_is_slice_partial (fixedSource c i) pre (loopNumbers c i) i.half
+        (nwu_result_text_is_slice c i h pre hpre) h.numbers
 
 /-! ### `BaseMergedUnitExtractor` (currency) -/
 
